@@ -15,7 +15,9 @@ RULE = ("Generated: shape-directed random parameter graphs (depth <= 4, rank 1..
         "references, constants, real and complex tensors; optionally 2..4 graphs of equal output shape "
         "(same or different structure) folded together with the compiler's own folding routine. Oracle: "
         "numpy definition of each node (vlib/ref.py) composed along the graph: compiled value must have "
-        "shape (folds, *declared shape) and equal the reference in every fold slice. Non-trivial = a "
+        "shape (folds, *declared shape) and equal the reference in every fold slice; rank-2 graphs are also used as "
+        "sum-layer weights of a circuit compiled with optimize=True (parameter-level rewrites) and its outputs "
+        "compared with W @ input. Non-trivial = a "
         "non-default axis, rank >= 2, a composition of >= 2 operators, or >= 2 folds; distinct = hash of case.")
 ASSUMPTIONS = ["tolerance: 1e-9 relative plus 1e3 x the change of the reference under a 1e-13 relative "
                "perturbation of the leaves (conditioning estimate)",
@@ -38,7 +40,10 @@ def _case(draw, tier):
         else:
             graphs.append(g.gen(shape, draw(st.integers(0, depth)), pos=False, cx=cx))
     return {"shape": shape, "graphs": graphs, "vseed": draw(st.integers(0, 2**20)),
-            "profile": draw(st.sampled_from(["normal", "normal", "ints"]))}
+            "profile": draw(st.sampled_from(["normal", "normal", "ints"])),
+            # rank-2 graphs are additionally used as the weight of a sum layer in a circuit compiled with
+            # optimize=True, so that the parameter-level rewrites (log-softmax, einsum, ...) are exercised too
+            "as_weight": rank == 2 and draw(st.booleans()), "fold": draw(st.booleans())}
 
 
 def strategy(tier):
@@ -84,6 +89,71 @@ def _mixed_dtypes(graphs):
         for l in _leaves(g, []):
             kinds.add(bool(l.get("cx")))
     return len(kinds) > 1
+
+
+def _as_sum_weight(case, graphs):
+    """Each graph (shape (Ko, Ki)) as the weight of a sum layer over an embedding input, compiled with
+    optimize=True: the circuit output must be W @ E[:, x] with W the reference value of the graph."""
+    from cirkit.backend.torch.compiler import TorchCompiler
+    from cirkit.symbolic.circuit import Circuit
+    from cirkit.symbolic.initializers import NormalInitializer
+    from cirkit.symbolic.layers import EmbeddingLayer, SumLayer
+    from cirkit.symbolic.parameters import Parameter, TensorParameter
+    from cirkit.utils.scope import Scope
+
+    Ko, Ki = case["shape"]
+    cx = _mixed_dtypes(graphs) or any(l.get("cx") for g in graphs for l in _leaves(g, []))
+    sem = "complex-lse-sum" if cx else "sum-product"
+    comp = TorchCompiler(semiring=sem, fold=case.get("fold", False), optimize=True)
+    layers, in_layers, outs, vals, built = [], {}, [], {}, []
+    for k, ps in enumerate(graphs):
+        P, b = pspec.build(ps)
+        built.append((P, b))
+        vals.update(pspec.draw_values(b, case["vseed"] + 101 * k, case["profile"]))
+        for t in b.base_tensors:
+            with sut("compile-parameter"):
+                base = comp.compile_parameter(Parameter.from_input(t))
+                base.reset_parameters()
+        e = TensorParameter(Ki, 2, initializer=NormalInitializer())
+        vals[e] = np.random.default_rng(case["vseed"] + k).normal(size=(Ki, 2))
+        emb = EmbeddingLayer(Scope([k]), Ki, num_states=2, weight=Parameter.from_input(e))
+        sl = SumLayer(Ki, Ko, weight=P)
+        layers += [emb, sl]
+        in_layers[sl] = [emb]
+        outs.append((sl, e, P, k))
+    sc = Circuit(layers, in_layers, [o[0] for o in outs])
+    with sut("compile-optimized"):
+        cc = comp.compile(sc)
+    with torch.no_grad():
+        for t, v in vals.items():
+            node, idx = comp.state.retrieve_compiled_parameter(t)
+            node._ptensor.data[idx].copy_(torch.from_numpy(np.ascontiguousarray(v)))
+    import itertools
+
+    X = np.array(list(itertools.product([0, 1], repeat=len(graphs))), dtype=np.float64)
+    with sut("evaluate-optimized"), torch.no_grad():
+        y = cc(torch.from_numpy(X)).numpy()
+    if sem != "sum-product":
+        with np.errstate(all="ignore"):
+            y = np.exp(y)
+    pert = _perturb(vals, case["vseed"])
+    for j, (sl, e, P, k) in enumerate(outs):
+        with np.errstate(all="ignore"):
+            W, Wp = ref.param(P, vals), ref.param(P, pert)
+        E = vals[e]
+        xi = X[:, k].astype(int)
+        r = (W @ E[:, xi]).T
+        rp = (Wp @ pert[e][:, xi]).T
+        mag = (np.abs(W) @ np.abs(E[:, xi])).T
+        if not (np.all(np.isfinite(r)) and np.all(np.isfinite(rp))):
+            return "degenerate"
+        tolv = 1e-9 * mag + 1e3 * np.abs(rp - r) + 1e-12
+        bad = ~(np.abs(y[:, j] - r) <= tolv)
+        if np.any(bad):
+            i = tuple(int(q) for q in np.argwhere(bad)[0])
+            raise Violation("value", "value:as-sum-weight-optimized:" + graphs[k]["op"],
+                            f"at {i}: circuit {y[:, j][i]!r} reference {r[i]!r}")
+    return "ok"
 
 
 def run_case(case):
@@ -164,6 +234,9 @@ def run_case(case):
             res = _compare(y[k], refs[k][0], refs[k][1], "folded")
             degenerate |= res == "degenerate"
         classes.append("folded-nodes:" + str(len(list(ftp.nodes))))
+    if case.get("as_weight") and len(case["shape"]) == 2 and not degenerate:
+        res = _as_sum_weight(case, graphs)
+        classes.append("as-sum-weight:" + res)
     n_ops = max(pspec.count_ops(g) for g in graphs)
     nontrivial = (not degenerate) and (len(case["shape"]) >= 2 or n_ops >= 2 or len(graphs) >= 2
                                        or any(pspec.nondefault_axis(g) for g in graphs))
